@@ -18,6 +18,7 @@ RULE = ("Generated: portfolios of 1-5 assets (+ a buy/sell market pair per node 
         "the table index is the original grid. Non-trivial: optimal, >= 2 assets with non-zero dispatch at some "
         "node-step and (a variable with several mapping rows, or a split or structured build). "
         "Distinct = distinct spec hash.")
+RULE += (' Dedicated shapes (1 in 12 each): a node whose assets all begin later (absent from the first split intervals); a split into intervals that all look alike while the fuel factors of a Plant/CHP (efficiency, running / start consumption as interval data) change over time; two nodes that see exactly the same variables (multi-commodity contract + transport between them, everything else ended).')
 ASSUMPTIONS = ["set-up errors of special variants (owned by C13/C08) are discarded and counted, infeasible cases make no claim",
                "tolerance 1e-6*(1+largest bound) on the nodal sums (interior-point / HiGHS output)"]
 
